@@ -11,7 +11,7 @@ RULE = ("every list of the stated spaces (every interleaving of lengths) is exec
         "{(i,j,h): i!=j, equal length, h = mismatches <= k}; non-trivial = expected set non-empty")
 ASSUMPTIONS = ["alphabet restricted to amino-acid letters (kdtree/hash_based only accept those)",
                "hash_based Hamming ball over 20 letters: k=3 only in the thorough tier on Lists(V,2)"]
-REQUIRED_CLASSES = {"all": ["mixed-lengths", "lengths-not-sorted", "indel-reachable-not-hamming", "duplicate-at-distance-0", "long-strings>=127", "large-single-length-bucket", "two-empty-strings"]}
+REQUIRED_CLASSES = {"all": ["mixed-lengths", "lengths-not-sorted", "indel-reachable-not-hamming", "duplicate-at-distance-0", "long-strings>=127", "large-single-length-bucket", "two-empty-strings", "one-composition-many-sequences"]}
 MIN_OUTCOMES = 10
 
 V = E.universe("AC", 3, minlen=1)   # 14 strings of length 1..3
@@ -50,6 +50,9 @@ def spaces(tier):
             yield ("long", n)
         for N in (1001,) if q else (1001, 10001, 100003):
             yield ("samelen", N)
+        for word in ("AACD", "ACDE", "AAACC", "CASSF"):
+            for copies in (0, 11):
+                yield ("samecomp", word, copies)
 
     return [
         Space("long-string-boundary-family", gen_long, "equal-length neighbours and near-misses of length 127..300 mixed with short strings: x^n, x^(n-1)y, yx^(n-1), x^(n-2)yy, x^(n+1), x^(n-1); all engines, k in 1..2 (hash_based k=1)", per_case=True),
@@ -150,6 +153,15 @@ def check_case(case, acc):
             expected = neighbors_within(seqs, k, dist="hamming")
             for eng in ("nearest_neighbor", "symdel", "symdel2", "kdtree") + (("hash_based",) if k == 1 else ()):
                 compare(acc, case, eng, seqs, k, run(acc, eng, seqs, k), expected, True)
+    elif kind == "samecomp":
+        # one length bucket holding more than ten sequences of one composition that are not all identical
+        _, word, copies = case
+        acc.cls("one-composition-many-sequences")
+        seqs = E.composition_family(word, copies, extra=("CA", word + "A", word[:-1]))
+        for k in (1, 2, 3):
+            expected = neighbors_within(seqs, k, dist="hamming")
+            for eng in ("nearest_neighbor", "symdel2", "kdtree") + (("hash_based",) if k <= (2 if len(word) <= 4 else 1) else ()):
+                compare(acc, case, eng, seqs, k, run(acc, eng, seqs, k), expected, False)
     elif kind == "samelen":
         # many sequences of one and the same length (one Hamming bucket): clonal family at the ends and next to round positions
         N = case[1]
